@@ -60,16 +60,30 @@ def goenv(extra=None):
 
 def build(mode):
     """Build cmd/vh in one mode from /repo's current tree. Returns (path, error)."""
-    os.makedirs(BIN, exist_ok=True)
-    out = os.path.join(BIN, "vh-" + mode)
-    lock = open(os.path.join(BIN, ".lock-" + mode), "w")
+    bindir = BIN
+    extra = []
+    alt = os.environ.get("VERIF_REPO")
+    if alt:
+        # sensitivity runs: build against another copy of the repository (a scratch worktree with a
+        # seeded change) without touching /repo. Registered checks never set this.
+        alt = os.path.abspath(alt)
+        bindir = os.path.join(BIN, "alt-" + hashlib.sha1(alt.encode()).hexdigest()[:8])
+        os.makedirs(bindir, exist_ok=True)
+        mf = os.path.join(bindir, "go.mod")
+        txt = open(os.path.join(HARNESS, "go.mod")).read().replace("=> /repo", "=> " + alt)
+        open(mf, "w").write(txt)
+        shutil.copy(os.path.join(HARNESS, "go.sum"), os.path.join(bindir, "go.sum"))
+        extra = ["-modfile=" + mf]
+    os.makedirs(bindir, exist_ok=True)
+    out = os.path.join(bindir, "vh-" + mode)
+    lock = open(os.path.join(bindir, ".lock-" + mode), "w")
     fcntl.flock(lock, fcntl.LOCK_EX)
     try:
         # keep go.sum in step with the repo (offline: only hashes already present are needed)
         gs = os.path.join(HARNESS, "go.sum")
         if not os.path.exists(gs):
             shutil.copy("/repo/go.sum", gs)
-        cmd = ["go", "build"] + BUILD[mode]["args"] + ["-o", out + ".new", "./cmd/vh"]
+        cmd = ["go", "build"] + extra + BUILD[mode]["args"] + ["-o", out + ".new", "./cmd/vh"]
         p = subprocess.run(cmd, cwd=HARNESS, env=goenv(BUILD[mode]["env"]),
                            stdout=subprocess.PIPE, stderr=subprocess.STDOUT, text=True)
         if p.returncode != 0:
